@@ -17,6 +17,8 @@
 (*   cend  column (0-based) at which the comment ends on its last line     *)
 (*   j     content line of the key; koff = 0-based column of the key       *)
 (*         within its file line                                            *)
+(*   cont  width of the Markdown container prefix every line carries       *)
+(*         (0 outside list items / block quotes); file columns include it  *)
 (***************************************************************************)
 EXTENDS Integers, Sequences, FiniteSets, TLC, Json
 
@@ -28,6 +30,7 @@ vars == <<lay, j, koff, klen, done>>
 Init == /\ lay \in Layouts /\ j \in KeyLines /\ koff \in KeyOffs /\ klen \in {1, 3}
         /\ (j = 0 => lay.inline)            \* a key on line 0 exists only when content starts on the comment's last line
         /\ (j = 0 => koff >= lay.cend + 1)  \* ... and it lies after the comment
+        /\ koff >= lay.cont                 \* inside a Markdown container every line starts with the container's prefix
         /\ done = FALSE
 Next == ~done /\ done' = TRUE /\ UNCHANGED <<lay, j, koff, klen>>
 Spec == Init /\ [][Next]_vars
